@@ -127,3 +127,10 @@ CORPUS += [
     Mut('c18-writer-started-on-a-thread', OPT, 'Optimizer.save_full_state', 'save_parameters(checkpoint, full_state, safely, overwrite)',
         'import threading\nthreading.Thread(target=save_parameters, args=(checkpoint, full_state, safely, overwrite)).start()', expect=[('C18.W', 'save_parameters-is-called-not-handed-over')]),
 ]
+CORPUS += [
+    Mut('c18-replace-through-a-remove-then-rename-helper', 'torchtree/core/parameter_utils.py', '', "        os.replace(file_name + '.new', file_name)\n",
+        "        _move(file_name + '.new', file_name)\n\n\ndef _move(src, dst):\n    try:\n        os.remove(dst)\n    except FileNotFoundError:\n        pass\n    os.rename(src, dst)\n",
+        mode='text', expect=[('C18.I1', '')]),
+    Mut('c18-benign-replace-through-a-helper', 'torchtree/core/parameter_utils.py', '', "        os.replace(file_name + '.new', file_name)\n",
+        "        _move(file_name + '.new', file_name)\n\n\ndef _move(src, dst):\n    os.replace(src, dst)\n", mode='text', benign=True),
+]
